@@ -94,6 +94,8 @@ func (e *Enc) resolveTypeExpr(te *TypeExpr, pkgPath string, imports map[string]s
 			return "Bool", nil, nil
 		case "bytes":
 			return "Bytes", nil, nil
+		case "content":
+			return "Content", nil, nil
 		}
 		o, err := e.P.resolveNamed(te.Name, pkgPath, imports)
 		if err != nil {
@@ -874,6 +876,18 @@ func (env *Env) evalCall(x *ECall) (*Val, error) {
 					return env.visitedSet(int(n.V.Int64()))
 				}
 			}
+		case "content":
+			// abstraction of the content of any slice value in the current state (generalises bytes()): an
+			// uninterpreted function of the backing arrays, offset and length -> one scalar of sort Content
+			if len(x.Args) == 1 {
+				if _, shadow := env.vars["content"]; !shadow {
+					v, err := env.eval(x.Args[0])
+					if err != nil {
+						return nil, err
+					}
+					return e.contentOf(env.st, v)
+				}
+			}
 		case "zero":
 			if len(x.Args) == 1 {
 				if tl, ok := x.Args[0].(*ETypeLit); ok {
@@ -1331,4 +1345,28 @@ func (e *Enc) bytesOf(st *State, v *Val) (*Val, error) {
 	f := e.declFun("bseq", []string{"(Array Int Int)", "Int", "Int"}, "Bytes")
 	h := e.heapGet(st, "S|"+typeStr(sl.Elem())+"|", "(Array Int (Array Int Int))")
 	return &Val{L: []Sc{{"(" + f + " (select " + h + " " + v.L[0].T + ") " + v.L[1].T + " " + v.L[2].T + ")", "Bytes"}}}, nil
+}
+
+// contentOf: abstract content of a slice value (any element type) in state st.
+func (e *Enc) contentOf(st *State, v *Val) (*Val, error) {
+	if v.T == nil || len(v.L) != 4 {
+		return nil, fmt.Errorf("content() needs a slice value")
+	}
+	sl, ok := v.T.Underlying().(*types.Slice)
+	if !ok {
+		return nil, fmt.Errorf("content() needs a slice value")
+	}
+	e.declSort("Content")
+	var sorts, args []string
+	for _, lf := range e.TI.shape(sl.Elem()) {
+		k := "S|" + typeStr(sl.Elem()) + "|" + lf.Path
+		srt := "(Array Int (Array Int " + lf.Sort + "))"
+		h := e.heapGet(st, k, srt)
+		sorts = append(sorts, "(Array Int "+lf.Sort+")")
+		args = append(args, "(select "+h+" "+v.L[0].T+")")
+	}
+	sorts = append(sorts, "Int", "Int")
+	args = append(args, v.L[1].T, v.L[2].T)
+	f := e.declFun(sym("cseq!"+typeStr(sl.Elem())), sorts, "Content")
+	return &Val{L: []Sc{{"(" + f + " " + strings.Join(args, " ") + ")", "Content"}}}, nil
 }
